@@ -148,6 +148,61 @@ def make_h(tier):
     return h
 
 
+# ------------------------------------------------------------------ K2: only numeric-literal node kinds are ever collected
+def h_kinds(ctx):
+    """A node of ANY grammar kind carrying the text 3975 / true / "12345" is collected as a numeric literal
+    iff its kind is a numeric-literal kind of that grammar; const/static/enum context kinds decide exemption."""
+    from vsym.nodes import Duck
+    from vsym.symkind import SKind, SymSet, kind_table
+    lang = ctx.pick("grammar", ("typescript", "rust"))
+    table = kind_table(lang)
+    text = ctx.pick("text", ("3975", "true", "'12345'", "x123", "39.75"))
+    kind = SKind(ctx, "node_kind", table)
+    parent_kind = SKind(ctx, "parent_kind", table)
+    grand_kind = SKind(ctx, "grandparent_kind", table)
+    node = Duck(kind, text, start=(2, 4))
+    parent = Duck(parent_kind, "", [Duck("identifier", "lower_name"), node], start=(2, 0))
+    grand = Duck(grand_kind, "", [parent], start=(1, 0))
+    root = Duck("program" if lang == "typescript" else "source_file", "", [grand], start=(0, 0))
+    if lang == "typescript":
+        from src.linters.magic_numbers.typescript_analyzer import TypeScriptMagicNumberAnalyzer as A
+        a = A()
+        numeric = ("number",)
+        # kinds that contain literals of their own must not be picked for the wrappers
+        for k in (parent_kind, grand_kind):
+            ctx.assume(k != "number")
+        lits = a.find_numeric_literals(root)
+        is_num = kind.is_one_of(numeric)
+        parses = text in ("3975", "39.75")
+        ctx.cover("collected" if lits else "not-collected")
+        ctx.require("collected-iff-numeric-literal-kind", Eq(len(lits) == 1, And(is_num, parses)), text=text)
+        if lits:
+            ctx.require("line-of-the-literal", lits[0][2] == 3)
+            in_enum = a.is_enum_context(node)
+            ctx.require("enum-context-iff-an-ancestor-is-an-enum-declaration",
+                        Eq(in_enum, Or(parent_kind == "enum_declaration", grand_kind == "enum_declaration")))
+    else:
+        from src.linters.magic_numbers.rust_analyzer import RustMagicNumberAnalyzer as A
+        a = A()
+        saved = A.NUMERIC_LITERAL_TYPES
+        for k in (parent_kind, grand_kind):
+            ctx.assume(Not(k.is_one_of(("integer_literal", "float_literal"))))
+        try:
+            A.NUMERIC_LITERAL_TYPES = SymSet(saved)
+            lits = a.find_numeric_literals(root)
+        finally:
+            A.NUMERIC_LITERAL_TYPES = saved
+        is_int, is_float = kind == "integer_literal", kind == "float_literal"
+        parses = Or(And(is_int, text == "3975"), And(is_float, text in ("3975", "39.75")))
+        ctx.cover("collected" if lits else "not-collected")
+        ctx.require("collected-iff-numeric-literal-kind", Eq(len(lits) == 1, parses), text=text)
+        if lits:
+            ctx.require("line-of-the-literal", lits[0][2] == 3)
+            ctx.require("const-context-iff-an-ancestor-is-a-const-or-static-item",
+                        Eq(a.is_constant_definition(node), Or(parent_kind.is_one_of(("const_item", "static_item")),
+                                                              grand_kind.is_one_of(("const_item", "static_item")))))
+
+
 def _same_number(s, value):
     try:
         return float(s) == float(value)
@@ -175,4 +230,10 @@ def obligations(tier):
                   % (len(SPELL["python"]), len(SPELL["typescript"]), len(SPELL["rust"]), len(CTX["python"]), len(CTX["typescript"]), len(CTX["rust"])),
            timeout=400 if tier == "quick" else 2400, workers=14, must_cover=("flagged", "not-flagged"),
            outside="float formatting in the message beyond numeric equality; heuristic content-based definition-file detection"),
+        Ob(name="K2-symbolic-node-kinds-whole-grammar", engine="pathex", harness=h_kinds,
+           functions=["TypeScriptMagicNumberAnalyzer.find_numeric_literals/_collect_numeric_literals/_extract_numeric_value/is_enum_context",
+                      "RustMagicNumberAnalyzer.find_numeric_literals/_collect_numeric_literals/is_constant_definition"],
+           bounds="kinds of the node, its parent and its grandparent are solver variables over the complete kind table of the real grammar (TS 383 / Rust 355 kinds, symbolic to the end); node text from {3975, true, '12345', x123, 39.75}",
+           timeout=200, workers=8, must_cover=("collected", "not-collected"),
+           stubs=("duck-typed tree-sitter nodes", "SymSet wrapper around RustMagicNumberAnalyzer.NUMERIC_LITERAL_TYPES")),
     ]
